@@ -88,6 +88,13 @@ def gen(rng, k):
     sc['resubscribe'] = rng.random() < 0.3
     if rng.random() < 0.3 and sc['recv_kinds'][0] == 'normal':
         sc['recv_sends'] = dict(dtcs=[[rng.getrandbits(19), rng.getrandbits(5), rng.getrandbits(7)]], cycle=rng.choice([60000, 170000, 333000]))
+    if k % 5 == 3 and sc['recv_kinds'][0] == 'normal':
+        # an application that keeps ONE lamp dictionary and ONE list of trouble-code dictionaries and hands the same objects over
+        # at every cycle, on a Dm1 object that is also subscribed to the DM1 of the other nodes — and another node does send its own
+        # DM1 (other lamps): what the application supplies stays what it put there
+        sc['keeps_dicts'] = True
+        sc['sender_listens'] = True
+        sc['recv_sends'] = dict(dtcs=[[rng.getrandbits(19), rng.getrandbits(5), rng.getrandbits(7)]], cycle=rng.choice([60000, 170000, 333000]))
     fam = k % 6
     if fam == 0 and n >= 2 and dll == 'j1939-21' and k % 12 == 0:
         # one frame of a multi-packet DM1 is lost on the bus, and the next DM1 is announced before the receivers have given the
@@ -173,6 +180,10 @@ def runner(sc):
 
         src2 = None
 
+        kept = {}
+        if sc.get('sender_listens'):
+            dmA.subscribe(lambda sa, lamps, dtcs, ts: None)
+
         def src():
             calls.append(sim.now)
             k = len(calls) - 1
@@ -180,6 +191,11 @@ def runner(sc):
             events.append(('call', sim.now, dt))
             if sc.get('stop_mode') == 'self' and len(calls) == sc['stop_at_call']:
                 stop()
+            if sc.get('keeps_dicts') and not sc.get('varying'):
+                if not kept:
+                    kept['lamps'] = dict(zip(KEYS, sc['lamps']))
+                    kept['dtcs'] = [dict(spn=s, fmi=f, oc=o) for s, f, o in dt]
+                return (kept['lamps'], kept['dtcs'])
             order = [KEYS[(i + k) % 4] for i in range(4)]            # the lamp dictionary is built in a different key order each cycle
             return ({kk: sc['lamps'][KEYS.index(kk)] for kk in order}, [dict(spn=s, fmi=f, oc=o) for s, f, o in dt])
 
@@ -318,8 +334,10 @@ def run(out, tier, rng, work):
                       dict(broke='oracle', oracle=kind, input=inp, observed=got, expected=exp))
     nsc = 42 if tier == 'quick' else 360
     worst = {}
-    for k in range(nsc):
-        sc = gen(rng, k)
+    import sprop
+    corpus = [sc for _name, sc in sprop.load_corpus('C16')]         # minimised scenarios of the defects found so far run first
+    for k in range(-len(corpus), nsc):
+        sc = corpus[k + len(corpus)] if k < 0 else gen(rng, k)
         res = runner(sc)
         out.add_case(scen.sc_hash(sc), len(res.got) > 0, sample=dict(n_dtcs=len(sc['dtcs']), cycle=sc['cycle'], deliveries=len(res.got)) if k < 3 else None)
         for x in oracle(sc, res):
